@@ -28,7 +28,7 @@ from mc.ref import money
 PROPERTY = "C11"
 LEVEL = "exploration"
 DETERMINISM_CASES = 1
-RULE = ("cases = the default budget and every budget at <= B deviations from it (B=2 quick, 3 thorough) over 38 single-setting deviations (combinations touching "
+RULE = ("cases = the default budget and every budget at <= B deviations from it (B=2 quick, 3 thorough) over 44 single-setting deviations (combinations touching "
         "the same setting twice are skipped); each budget runs 3 CLI commands in fresh processes. non-trivial = budgets whose expected analysis differs from the "
         "default budget's (the deviation is observable); budgets distinct by construction")
 ASSUMPTIONS = ["the expected report is assembled from abstract rows with library functions called directly (normalize_merchant, analyze_transactions, classify_by_sections); "
